@@ -392,7 +392,29 @@ func c15Experiment(trials [][]int, champs []*GenomeSpec) (fails []c15Fail) {
 	if err := e.Write(&buf); err != nil {
 		return []c15Fail{{"experiment/write-error", err.Error()}}
 	}
+	fails = append(fails, c15CompareExperiment(&e, buf.Bytes(), nil, "a fresh Experiment")...)
+	// ... and into an Experiment object that was used before (same number of trials, other content,
+	// statistics already queried): the restored experiment must not depend on what the object held
+	used := experiment.Experiment{Id: 99, Name: "used before"}
+	for i := range trials {
+		alt := []int{(i + 2) % len(c19GenMenu), (i + 3) % len(c19GenMenu), 2}
+		used.Trials = append(used.Trials, c19Trial(50+i, alt))
+	}
+	for i := range used.Trials {
+		used.Trials[i].WinnerStatistics()
+	}
+	_, _, _, _ = used.AvgWinnerStatistics()
+	fails = append(fails, c15CompareExperiment(&e, buf.Bytes(), &used, "an Experiment object used before")...)
+	return fails
+}
+
+// c15CompareExperiment reads data into target (a fresh Experiment if nil) and compares with e.
+func c15CompareExperiment(ep *experiment.Experiment, data []byte, target *experiment.Experiment, into string) (fails []c15Fail) {
+	e := *ep
 	var back experiment.Experiment
+	if target != nil {
+		back = *target
+	}
 	var err error
 	func() {
 		defer func() {
@@ -400,10 +422,10 @@ func c15Experiment(trials [][]int, champs []*GenomeSpec) (fails []c15Fail) {
 				err = fmt.Errorf("panic: %v", r)
 			}
 		}()
-		err = back.Read(bytes.NewReader(buf.Bytes()))
+		err = back.Read(bytes.NewReader(data))
 	}()
 	if err != nil {
-		return []c15Fail{{"experiment/read-error", "Experiment.Read failed: " + err.Error()}}
+		return []c15Fail{{"experiment/read-error", "Experiment.Read into " + into + " failed: " + err.Error()}}
 	}
 	if back.Id != e.Id || back.Name != e.Name || len(back.Trials) != len(e.Trials) {
 		return []c15Fail{{"experiment/header", fmt.Sprintf("experiment (id %d, %q, %d trials) read back as (id %d, %q, %d trials)", e.Id, e.Name, len(e.Trials), back.Id, back.Name, len(back.Trials))}}
@@ -459,7 +481,7 @@ func c15Experiment(trials [][]int, champs []*GenomeSpec) (fails []c15Fail) {
 			vb = s.f(&back)
 		}()
 		if va != vb {
-			fails = append(fails, c15Fail{"experiment/statistic-" + s.name, fmt.Sprintf("%s is %s before writing and %s after reading", s.name, va, vb)})
+			fails = append(fails, c15Fail{"experiment/statistic-" + s.name, fmt.Sprintf("%s is %s before writing and %s after reading into %s", s.name, va, vb, into)})
 		}
 	}
 	return
